@@ -407,13 +407,17 @@ func (c *Ctx) guardsMissing(ex excEntry, f *ssa.Function, b *ssa.BasicBlock) str
 			return "function " + g.fn + " not found"
 		}
 		found := false
+		// a condition written with a leading '~' is a branch that need not reject (a case split
+		// whose other arm returns normally); it must exist and dominate all the same
+		noReject := strings.HasPrefix(g.cond, "~")
+		g.cond = strings.TrimPrefix(g.cond, "~")
 		for _, bb := range gf.Blocks {
 			ifi := lastIf(bb)
 			if ifi == nil || (shape(ifi.Cond, 3) != g.cond && eraseNames(shape(ifi.Cond, 3)) != eraseNames(g.cond) && eraseNamesAndPrivateFields(shape(ifi.Cond, 3)) != eraseNamesAndPrivateFields(g.cond)) {
 				continue
 			}
 			// the guard must reject: one of its edges leads (directly) to a return of a non-nil error
-			if !rejects(gf, bb) {
+			if !noReject && !rejects(gf, bb) {
 				continue
 			}
 			if gf == f && b != nil {
@@ -456,6 +460,17 @@ func (c *Ctx) siteObl(rule, key string, pos token.Pos, f *ssa.Function, b *ssa.B
 		return
 	}
 	p = c.newProver(f, b)
+	// contradiction: the function's OWN branch facts establish that the access is out of range
+	// (x[0] behind `len(x) != 0 -> return`): a definite crash on this path, whatever the callers
+	// guarantee. Only with satisfiable facts (dead code proves anything).
+	if rule == "E1.P2-bounds" && !p.prove(linConst(-1)) {
+		for _, gl := range g.build(p) {
+			if p.prove(gl.scale(-1).addConst(-1)) {
+				c.bad(rule, key, pos, badMsg+" -- worse: the branch conditions of "+fnName(f)+" itself imply that this access is OUT of range on the path that reaches it (inverted emptiness or length test)")
+				return
+			}
+		}
+	}
 	c.oblWith(rule, key, pos, p, f, b, f, g, env, okMsg, badMsg, 0)
 }
 
